@@ -1106,11 +1106,15 @@ class Engine:
         self.paranoid = True
 
     # ------------------------------------------------------------------
-    def explore(self, thunk, max_paths=None, on_result=None):
-        """thunk(ctx) -> value.  Returns list[PathResult] (or streams them to on_result)."""
+    def explore(self, thunk, max_paths=None, on_result=None, prefixes=None, stop_pending=None):
+        """thunk(ctx) -> value.  Returns list[PathResult] (or streams them to on_result).
+        prefixes: explore only the subtrees below these decision prefixes.
+        stop_pending: stop as soon as that many unexplored subtrees are pending; they are left in
+        self.pending for other workers (stateless exploration makes the split trivial)."""
         results = []
         n_done = 0
-        work = [[]]
+        work = [list(p) for p in prefixes] if prefixes is not None else [[]]
+        self.pending = []
         limit = max_paths or self.max_paths
         while work:
             if len(results) + n_done >= limit:
@@ -1119,6 +1123,9 @@ class Engine:
                     on_result(r)
                 else:
                     results.append(r)
+                break
+            if stop_pending is not None and len(work) >= stop_pending:
+                self.pending = work
                 break
             prefix = work.pop()
             ctx = Ctx(self, prefix)
@@ -1553,6 +1560,9 @@ class Engine:
         else:
             vals = [Cell(self.eval_operand(frame, o)) for o in rv.b]
         ev = self.program.is_enum_variant_path(name, frame.fn.crate)
+        if ev is None and "::" not in strip_generics(name) and getattr(self, "dest_type", None):
+            # bare variant name (`Start(..)`): qualify it with the destination's type
+            ev = self.program.is_enum_variant_path(strip_generics(self.dest_type) + "::" + strip_generics(name), frame.fn.crate)
         if ev:
             return EnumV(ev[0], ev[1], ev[2], vals)
         ty = strip_generics(name).split("::")[-1]
@@ -1592,6 +1602,7 @@ class Engine:
                 st.steps += 1
                 if s.kind == "assign":
                     try:
+                        self.dest_type = fn.local_types.get(s.place.local) if not s.place.proj else None
                         val = self.eval_rvalue(frame, s.rv)
                         self.place_cell(frame, s.place).v = val
                     except Untranslatable as u:
